@@ -344,9 +344,9 @@ pub fn run(rep: &mut Report) {
     super::run_corpus(rep, replay);
     rep.exhaustive("P8E0 all 2^16 pairs (c = a xor b) through every posit-operand spelling", 1 << 16, |i, l| P8E0::posit_ops(i >> 8, i & 0xff, (i >> 8) ^ (i & 0xff), l));
     fixed::<P8E0>(rep, tier.pick(20_000, 300_000), tier.pick(60_000, 2_000_000));
-    fixed::<P16E1>(rep, tier.pick(60_000, 2_000_000), tier.pick(60_000, 2_000_000));
-    fixed::<P32E2>(rep, tier.pick(60_000, 2_000_000), tier.pick(100_000, 4_000_000));
-    let h = tier.pick(30_000, 600_000);
+    fixed::<P16E1>(rep, tier.pick(200_000, 2_000_000), tier.pick(300_000, 2_000_000));
+    fixed::<P32E2>(rep, tier.pick(200_000, 2_000_000), tier.pick(500_000, 4_000_000));
+    let h = tier.pick(100_000, 600_000);
     rep.generated("Q8E0 lock-step: Quire trait vs inherent over generated histories", h, || history::<P8E0>(true, 16), |(s, p), l| quire_lockstep::<Q8E0>(s, *p, l));
     rep.generated("Q16E1 lock-step: Quire trait vs inherent over generated histories", h, || history::<P16E1>(true, 16), |(s, p), l| quire_lockstep::<Q16E1>(s, *p, l));
     rep.generated("Q32E2 lock-step: Quire trait vs inherent over generated histories", h, || history::<P32E2>(true, 16), |(s, p), l| quire_lockstep::<Q32E2>(s, *p, l));
